@@ -92,6 +92,14 @@ let a_roots = function
   | L l -> RList (List.map a_z l)
   | _ -> failwith "roots expected"
 
+(* token spellings: each hex-encoded, e.g. [2f5c,76302e] *)
+let unhex s =
+  let n = String.length s / 2 in
+  String.init n (fun i -> Char.chr (int_of_string ("0x" ^ String.sub s (2 * i) 2)))
+let a_spellings = function
+  | L l -> List.map (function A h -> cstring_of_string (unhex h) | _ -> failwith "hex") l
+  | _ -> failwith "spellings expected"
+
 (* ---- printing ---- *)
 let rec show_value = function
   | VZ z -> string_of_int (int_of_z z)
@@ -276,6 +284,32 @@ let () =
        | ["!digest"; m] ->
            let m = nat_of_int (int_of_string m) in
            print_endline ("digest\t" ^ show_digest (digest (world2_get !world m)))
+       | ["parse"; sp] ->
+           print_endline (show_res (parse_show (a_spellings (parse_arg sp))))
+       | [m; "add_expr"; sp] when String.length m > 1 && m.[0] = 'a' ->
+           let m = nat_of_int (int_of_string (String.sub m 1 (String.length m - 1))) in
+           let (w', r) = astep_expr !aworld m (a_spellings (parse_arg sp)) in
+           aworld := w';
+           print_endline (if !full then show_res r ^ "\t" ^ show_adigest (adigest (aworld_get w' m))
+                          else show_res r)
+       | [m; "to_expr"; h] when String.length m > 1 && m.[0] = 'a' ->
+           let m = nat_of_int (int_of_string (String.sub m 1 (String.length m - 1))) in
+           let (w', r) = astep_to_expr !aworld m (nat_of_int (int_of_string h)) in
+           aworld := w';
+           print_endline (if !full then show_res r ^ "\t" ^ show_adigest (adigest (aworld_get w' m))
+                          else show_res r)
+       | [m; "add_expr"; sp] ->
+           let m = nat_of_int (int_of_string m) in
+           let (w', r) = step_expr !world m (a_spellings (parse_arg sp)) in
+           world := w';
+           print_endline (if !full then show_res r ^ "\t" ^ show_digest (digest (world2_get w' m))
+                          else show_res r)
+       | [m; "to_expr"; u] ->
+           let m = nat_of_int (int_of_string m) in
+           let (w', r) = step_to_expr !world m (z_of_int (int_of_string u)) in
+           world := w';
+           print_endline (if !full then show_res r ^ "\t" ^ show_digest (digest (world2_get w' m))
+                          else show_res r)
        | m :: name :: args when String.length m > 1 && m.[0] = 'a' ->
            let m = nat_of_int (int_of_string (String.sub m 1 (String.length m - 1))) in
            let o = parse_aop name (List.map parse_arg args) in
